@@ -50,6 +50,10 @@ def tsEncode (p : Packet) : Bytes :=
   ++ (if h.hasAdaptationField then afEncode (p.adaptationField.getD {}) else [])
   ++ (if h.hasPayload then p.payload else [])
 
+/-- stuffing adaptation field of adaptation_field_length `l` in delivered form -/
+def stuffAF (l : Nat) : PacketAdaptationField :=
+  if l = 0 then { length := 0, isOneByteStuffing := true } else { length := l, stuffingLength := l - 1 }
+
 /-- a 188+k byte packet in this code base's convention: the k extra bytes directly follow the sync byte -/
 def tsExpand (extra : Bytes) (pkt : Bytes) : Bytes := pkt.take 1 ++ extra ++ pkt.drop 1
 
